@@ -1,6 +1,6 @@
 (* C08  All start-bit notations denote the same physical bits.
    This file holds only statements; every proof is `exact <lemma>`.  Print Assumptions follows each. *)
-From CM Require Import lib.Prelude model.Startbit proofs.Startbit_proofs.
+From CM Require Import lib.Prelude model.Startbit model.Codec proofs.Startbit_proofs proofs.Startbit_bridge.
 
 (* Querying in the notation used for setting returns the number that was set: every byte order, width,
    position and notation - not only 0..511 / 1..64. *)
@@ -65,3 +65,31 @@ Theorem C08_intel_ignores_start_little :
     get_startbit true size i bn sl = get_startbit true size i bn sl'.
 Proof. exact intel_ignores_start_little. Qed.
 Print Assumptions C08_intel_ignores_start_little.
+
+(* Bridge to the codec (C01's model): the bit of significance k that decoding reads is the payload bit at the physical
+   coordinate the notations talk about ... *)
+Theorem C08_codec_reads_the_denoted_coordinates :
+  forall d s k, 0 <= s_start s -> 1 <= s_size s -> (k < Z.to_nat (s_size s))%nat ->
+    sig_bit d s k = coord_bit d (bit_coord (s_le s) (s_size s) (s_start s) (Z.of_nat k)).
+Proof. exact sig_bit_is_coord_bit. Qed.
+Print Assumptions C08_codec_reads_the_denoted_coordinates.
+
+(* ... so a payload in which, among the signal's own bits, exactly the physical bit denoted by the number `sb` (in the
+   caller's numbering) is set decodes to the weight of the bit the notation refers to: 2^(size-1) for the MSB, 1 for the LSB. *)
+Theorem C08_single_bit_payload_decodes_to_weight :
+  forall d s sb bn sl i,
+    bn_ok bn -> set_startbit (s_le s) (s_size s) sb bn sl = Some i -> s_start s = i ->
+    inside (8 * zlen d) s = true -> s_float s = false -> s_signed s = false ->
+    (forall j, (j < Z.to_nat (s_size s))%nat ->
+        coord_bit d (bit_coord (s_le s) (s_size s) i (Z.of_nat j)) =
+        (if coord_eqb (bit_coord (s_le s) (s_size s) i (Z.of_nat j)) (num_coord (eff_lsb0 (s_le s) bn) sb) then true else false)) ->
+    decode_signal d (8 * zlen d) s = Some (RInt (2 ^ ref_bit (s_le s) (s_size s) sl)).
+Proof. exact denoted_bit_decodes_to_weight. Qed.
+Print Assumptions C08_single_bit_payload_decodes_to_weight.
+
+(* non-vacuity: Motorola, width 12, set with DBC number 7 for the MSB: only payload byte 0 bit 7 set decodes to 2^11 *)
+Example C08_example :
+  set_startbit false 12 7 (Some 1) false = Some 0 /\
+  decode_signal [128; 0; 0] 24 (mkSignal 0 0 12 false false false) = Some (RInt (2 ^ 11)) /\
+  decode_signal [0; 16; 0] 24 (mkSignal 0 0 12 false false false) = Some (RInt 1).
+Proof. vm_compute. repeat split. Qed.
